@@ -118,13 +118,44 @@ def h_realloc(vm, st, name, argv, ins):
 # ------------------------------------------------------------------ memory intrinsics
 
 def _copy(vm, st, dst, src, n):
-    n = vm.concretize(st, n)
+    if not isinstance(n, int):
+        n = z3.simplify(to_bv(n, 64))
+        n = n.as_long() if z3.is_bv_value(n) else n
+    if not isinstance(n, int):
+        k = st.known.get(n.get_id())
+        if k is not None:
+            n = k
+    if not isinstance(n, int):
+        return _copy_symlen(vm, st, dst, src, n)
     if n == 0:
         return
     if n > (1 << 22):
         raise Inconclusive("memcpy of %d bytes" % n)
     cells = vm.load_bytes(st, src, n)
     vm.store_bytes(st, dst, list(cells))
+
+
+def _copy_symlen(vm, st, dst, src, n):
+    """copy of a symbolic number of bytes without forking: byte k is copied iff k < n"""
+    vals = vm.values_of(st, n, limit=70, exact=True)
+    if not vals:
+        raise Terminal('infeasible')
+    if len(vals) == 1:
+        st.known[n.get_id()] = vals[0]
+        return _copy(vm, st, dst, src, vals[0])
+    mx = vals[-1]
+    if mx > 4096:
+        raise Inconclusive("copy of a symbolic length up to %d" % mx)
+    srcc = vm.load_bytes(st, src, mx)
+    old = vm.load_bytes(st, dst, mx)
+    out = list(old)
+    lo = vals[0]
+    out[:lo] = srcc[:lo]
+    for hi in vals[1:]:
+        g = z3.UGE(n, z3.BitVecVal(hi, 64))
+        out[lo:hi] = merge_cells(g, srcc[lo:hi], old[lo:hi], st)
+        lo = hi
+    vm.store_bytes(st, dst, out)
 
 
 def h_memcpy(vm, st, name, argv, ins):
